@@ -222,6 +222,13 @@ class SchemaGen:
             # a type called Query that is NOT the query root
             T['Query'] = {'kind': 'object', 'desc': None, 'interfaces': [], 'fields': field_set(1)}
         m['schema_desc'] = self.text(0.2)
+        self._viral = None
+        if r.random() < 0.12:
+            # a type of any kind that merely carries a conventional root name without being that root
+            free = [nm for op, nm in (('mutation', 'Mutation'), ('subscription', 'Subscription')) if m['roots'][op] is None and nm not in T]
+            cands = [n for n in T if n not in m['roots'].values()]
+            if free and cands:
+                self._viral = (r.choice(cands), r.choice(free))
         # directives
         for i in range(r.randint(0, 2)):
             args = {}
@@ -239,6 +246,8 @@ class SchemaGen:
         items = list(T.items())
         r.shuffle(items)
         m['types'] = dict(items)
+        if self._viral:
+            rename_type(m, *self._viral)
         return m
 
     def implement(self, T, name, base):
@@ -257,6 +266,32 @@ class SchemaGen:
 
 
 # ---------------- SDL renderer (own, independent of print_schema) ----------------
+def rename_type(m, old, new):
+    """Rename a type of the model everywhere it is referred to (definition order preserved)."""
+    def ref(t):
+        return ('n', new if t[1] == old else t[1]) if t[0] == 'n' else (t[0], ref(t[1]))
+
+    def ivs(d):
+        for a in d.values():
+            a['type'] = ref(a['type'])
+    m['types'] = {(new if n == old else n): t for n, t in m['types'].items()}
+    for t in m['types'].values():
+        if t['kind'] in ('object', 'interface'):
+            t['interfaces'] = [new if i == old else i for i in t['interfaces']]
+            for f in t['fields'].values():
+                f['type'] = ref(f['type'])
+                ivs(f['args'])
+        elif t['kind'] == 'input':
+            ivs(t['fields'])
+        elif t['kind'] == 'union':
+            t['members'] = [new if x == old else x for x in t['members']]
+    for d in m['directives'].values():
+        ivs(d['args'])
+    for op, nm in m['roots'].items():
+        if nm == old:
+            m['roots'][op] = new
+
+
 def q(s):
     """GraphQL quoted string literal for any text."""
     out = ['"']
@@ -534,7 +569,9 @@ def split_extension(rng, m):
     # whole types that nothing in the base refers to any more move to the extension document, in model order
     moved_types = []
     for name in list(A['types']):
-        if name in A['roots'].values() or rng.random() < 0.5:
+        if name in A['roots'].values() or rng.random() < 0.5 or name in ('Query', 'Mutation', 'Subscription'):
+            # (a type with a conventional root name stays in the base document: whether the base needs an explicit schema
+            # block must not depend on what the extension adds later)
             continue
         if name not in references(A, skip_type=name) and name not in references(A):
             moved_types.append(name)
